@@ -8,14 +8,14 @@ import dslgen
 
 FAULT_CLASSES = ["dup_packet", "dup_meta", "dup_option", "unknown_option", "bad_option_value", "dup_field", "dup_match_key",
                  "second_root", "length_outside_root", "length_twice", "unknown_packet_ref", "unknown_key", "unknown_length_target",
-                 "unknown_match_target", "typeless_unknown_meta"]
+                 "unknown_match_target", "typeless_unknown_meta", "forward_meta_ref"]
 
 EXPECT_MSG = {
     "dup_packet": "Duplicate packet definition", "dup_meta": "Duplicate metadata definition", "dup_option": "is already defined",
     "unknown_option": "is not allowed in this context", "bad_option_value": "is not allowed to be", "dup_field": "uplicate field",
     "dup_match_key": "Duplicate match key", "second_root": "Multiple root packets", "length_outside_root": "only be declared in the root",
     "length_twice": "Duplicate LengthOfField", "unknown_packet_ref": "Unknown packet type", "unknown_key": "nknown",
-    "unknown_length_target": "nknown", "unknown_match_target": "nknown", "typeless_unknown_meta": "Unknown MetaData type",
+    "unknown_length_target": "nknown", "unknown_match_target": "nknown", "typeless_unknown_meta": "Unknown MetaData type", "forward_meta_ref": "Unknown MetaData type",
 }
 
 
@@ -71,6 +71,16 @@ def inject(text, cls, rng):
         i = idx[0] + 1
         if L[i] == "}":
             return None
+        m = re.match(r"    (\S+) (\w+)( `[^`]*`)?,$", L[i])
+        r = rng.random()
+        if m and r < 0.3 and not re.match(r"[A-Z]", m.group(1)):
+            # reference entry first, plain entry of the same name second: the SECOND one is the duplicate
+            L[i + 1:i + 1] = ["    %s ZzDup `r`," % m.group(2), "    u32 ZzDup `p`,"]
+            return "\n".join(L) + "\n", i + 3
+        if m and r < 0.6 and not re.match(r"[A-Z]", m.group(1)):
+            # plain first, reference of the same name second
+            L[i + 1:i + 1] = ["    u32 ZzDup `p`,", "    %s ZzDup `r`," % m.group(2)]
+            return "\n".join(L) + "\n", i + 3
         L.insert(i + 1, L[i])
         return "\n".join(L) + "\n", i + 2
     if cls in ("dup_option", "unknown_option", "bad_option_value"):
@@ -166,6 +176,17 @@ def inject(text, cls, rng):
         a, b, n, _ = rng.choice(pk)
         L.insert(b, "    Nope%d ZzRef," % rng.randint(1, 9))
         return "\n".join(L) + "\n", b + 1
+    if cls == "forward_meta_ref":
+        # a reference entry placed BEFORE the entry it names (same block): entries are registered in text order
+        idx = [i for i, l in enumerate(L) if l.startswith("MetaData ")]
+        if not idx or L[idx[0] + 1] == "}":
+            return None
+        i = idx[0] + 1
+        m = re.match(r"    (\S+) (\w+)( `[^`]*`)?,$", L[i])
+        if not m or re.match(r"[A-Z]", m.group(1)):
+            return None
+        L.insert(i, "    %s ZzFwd `f`," % m.group(2))
+        return "\n".join(L) + "\n", i + 1
     if cls == "typeless_unknown_meta":
         # a checksum (or, in a root packet without one, a length) field written without a type whose name is no MetaData entry
         roots = [p for p in pk if p[3]]
@@ -181,6 +202,12 @@ def inject(text, cls, rng):
     if cls == "unknown_key":
         if len(pk) < 2:
             return None
+        inl = [i for i, l in enumerate(L) if re.match(r"    (repeat )?\w+ \{$", l)]
+        if inl and rng.random() < 0.5:
+            # inside an inline object; a member of the ENCLOSING packet is not a key there
+            i = rng.choice(inl)
+            L[i + 1:i + 1] = ["        match zzNoKey as ZzM {", "            1 : %s," % names[-1], "        },"]
+            return "\n".join(L) + "\n", i + 2
         a, b, n, _ = pk[0]
         L.insert(b, "    match zzNoKey as ZzM {")
         L.insert(b + 1, "        1 : %s," % names[-1])
@@ -214,6 +241,17 @@ CRASH_PROBES = [
     ("prefixed-length", "@lengthOf(b)\n    B,"), ("prefixed-checksum", "@calculatedFrom(\"X\")\n    B,"), ("padded", "@leftPad('0')\n    B x,"),
     ("tagged", "@tag(3)\n    B x,"), ("as-key", "B k,\n    match k as m {\n        1 : Q,\n    },"), ("in-inline", "G {\n        B x,\n    },"),
     ("ref-of-ref", "u8 a,")]
+] + [("inline/%s/%s" % (wn, bn), "packet A {\n    u8 x,\n}\nroot packet P {\n    u8 kind,\n    %s\n}\n" % (wrap % body))
+     for wn, wrap in [("plain", "G {\n        %s\n    },"), ("repeat", "repeat G {\n        %s\n    },"),
+                      ("nested", "G {\n        u8 g,\n        H {\n            %s\n        },\n    },")]
+     for bn, body in [("key-in-enclosing-packet", "u16 n,\n        match kind as payload {\n            1 : A,\n        },"),
+                      ("unknown-key", "match zz as m {\n            \"a\" : A,\n        },"),
+                      ("unknown-target", "u8 k,\n        match k as m {\n            [1, 2] : Zz,\n        },"),
+                      ("dup-field", "u8 a,\n        u16 a,"),
+                      ("unknown-ref", "Zz z,\n        repeat Zz zs,"),
+                      ("typeless-checksum", "cs @calculatedFrom(\"X\"),"),
+                      ("length-inside", "l @lengthOf(b),\n        A b,"),
+                      ("pad-on-scalar", "u8 a,")]
 ] + [("refmeta-chain", "MetaData M {\n    Zz B `b`,\n    B C `c`,\n}\nroot packet P {\n    C x,\n    C @calculatedFrom(\"X\"),\n}\n"),
      ("huge-fixed-63", "root packet P {\n    char[9000000000000000000] a,\n}\n"),
      ("huge-fixed-32", "root packet P {\n    char[4294967296] a,\n    zchar[2147483648] b,\n}\n"),
